@@ -2,6 +2,7 @@ package wasi_snapshot_preview1
 
 import (
 	"context"
+	"math"
 	"time"
 
 	"github.com/tetratelabs/wazero/api"
@@ -60,6 +61,12 @@ func pollOneoffFn(_ context.Context, mod api.Module, params []uint64) sys.Errno 
 	}
 
 	mem := mod.Memory()
+
+	// The byte sizes below are computed in 32 bits: reject counts whose products would overflow (such a
+	// request can never fit in a 4 GiB memory anyway).
+	if uint64(nsubscriptions)*48 > math.MaxUint32 {
+		return sys.EFAULT
+	}
 
 	// Ensure capacity prior to the read loop to reduce error handling.
 	inBuf, ok := mem.Read(in, nsubscriptions*48)
